@@ -21,9 +21,9 @@ ASSUMPTIONS = ['texts are valid UTF-8; literal/here-document kinds are used only
                '(c14.consistent_reference_mismatch) but is not a C14 violation',
                'wrappers are transformers that denote the identity on the generated texts']
 EXHAUSTIVE_NOTE = 'core: fixed corpus of 40 texts x 3 source kinds x 4 wrappers x buffer sizes {1,2,3,len-1,len,len+1,8192}'
-MIN_OBS = {'quick': {'evaluations': 15000, 'm4.comparisons': 15000, 'm4.as_file': 1000, 'm4.as_str': 5000,
+MIN_OBS = {'quick': {'evaluations': 12000, 'm4.comparisons': 15000, 'm4.as_file': 1000, 'm4.as_str': 5000,
                      'm4.as_lines_complete': 5000, 'm4.write_to': 1000, 'm4.sources_with_2plus_accessors': 2000,
-                     'm4.sources_observed_before_and_after_freeze': 200, 'c14.families_checked': 4000},
+                     'm4.sources_observed_before_and_after_freeze': 200, 'c14.families_checked': 3000},
            'thorough': {'evaluations': 200000, 'm4.comparisons': 200000, 'm4.as_file': 10000, 'm4.as_str': 50000,
                         'm4.as_lines_complete': 50000, 'm4.write_to': 10000,
                         'm4.sources_with_2plus_accessors': 20000, 'c14.families_checked': 50000}}
@@ -62,7 +62,7 @@ def cases(tier, seed):
     i = 0
     for t in texts:
         for ak in AKINDS:
-            for w in WRAPS[:4]:
+            for w in (WRAPS[:3] if tier == 'quick' else WRAPS[:4]):
                 mems = _mems(len(t.encode()))
                 if tier == 'quick':
                     # quick: the complete buffer-size sweep for the un-wrapped file source, one small size (rotating)
@@ -75,7 +75,7 @@ def cases(tier, seed):
                         continue
                     yield {'text': t, 'akind': ak, 'wrap': w, 'mem': m}
     rng = common.rng_for(seed, ID)
-    n_rand = 250 if tier == 'quick' else 12000
+    n_rand = 150 if tier == 'quick' else 12000
     for _ in range(n_rand):
         n = rng.choice((1, 2, 3, 4, 5, 6, 8, 8, 12, 40, 200))
         # one or two kinds of control character per text (so that a text with CR, which costs a bisection because of
